@@ -74,7 +74,7 @@ var wlAuthProcess = Workload{
 			if _, ex := tool.wait(0); ex {
 				return nil
 			}
-			up = udpPortBound(port)
+			up = tool.ownsUDPPort(port)
 			time.Sleep(10 * time.Millisecond)
 		}
 		if !up {
